@@ -69,7 +69,7 @@ func genWith(o gen.Options) func(rt *rapid.T) Case {
 	}
 }
 
-var chk = pbt.Check[Case]{Name: "byte-order-transparent", Gen: genWith(gen.Options{Unbuffered: true, Split: true, MaxForeign: 4}), Eval: eval}
+var chk = pbt.Check[Case]{Name: "byte-order-transparent", Gen: genWith(gen.Options{Unbuffered: true, Split: true, MaxForeign: 4, Arrays: true}), Eval: eval}
 
 func init() { pbt.Register(chk) }
 
